@@ -158,10 +158,16 @@ func cps0(n, k *Node) *Node { // nil: nothing
 	case isIf(n) && hasRet(n):
 		y := *n
 		y.A, y.B = cps(n.A, k), cps(n.B, k)
+		if y.A.Op == "Other" && y.B.Op == "Other" {
+			return nil // nothing but the returns
+		}
 		return &y
 	}
 	if k == nil {
 		return n
+	}
+	if n.Op == "Other" {
+		return k
 	}
 	return &Node{Op: "Seq", A: n, B: k}
 }
@@ -714,7 +720,10 @@ func (c *fnCtx) calleeReturn(x *ast.ReturnStmt) *Node {
 		if f.handler || f.fallback || f.optCall || f.entryCall || f.entryUse || f.helper || f.errVarUse {
 			return done(c.unknown(x))
 		}
-		return done(c.returnReject(x))
+		if n := c.returnReject(x); n.Op != "Other" {
+			return done(n)
+		}
+		return done()
 	}
 	var pre []*Node
 	for i, r := range results {
@@ -750,7 +759,9 @@ func (c *fnCtx) calleeReturn(x *ast.ReturnStmt) *Node {
 			pre = append(pre, n)
 		}
 	}
-	pre = append(pre, c.returnReject(x))
+	if n := c.returnReject(x); n.Op != "Other" {
+		pre = append(pre, n)
+	}
 	return done(pre...)
 }
 
